@@ -2,11 +2,13 @@ package file_storage
 
 import (
 	"bufio"
+	"bytes"
 	"encoding/json"
 	"fmt"
 	"io"
 	"os"
 	"strconv"
+	"sync"
 
 	"github.com/lidofinance/dc4bc/storage"
 
@@ -17,6 +19,10 @@ import (
 var _ storage.Storage = (*FileStorage)(nil)
 
 type FileStorage struct {
+	// mu serialises the users of this handle: they share the position of dataFile
+	// (a node polls and sends through the same handle), the lock file and the ignore lists
+	mu sync.Mutex
+
 	lockFile *fslock.Lock
 
 	dataFile *os.File
@@ -44,6 +50,15 @@ func countLines(r io.Reader) uint64 {
 	}
 
 	return count
+}
+
+// scanCompleteLines is bufio.ScanLines for a file that other handles append to while it is
+// read: a tail that does not end in a newline yet is an entry still being written, not an entry
+func scanCompleteLines(data []byte, atEOF bool) (advance int, token []byte, err error) {
+	if atEOF && bytes.IndexByte(data, '\n') < 0 {
+		return len(data), nil, nil
+	}
+	return bufio.ScanLines(data, atEOF)
 }
 
 // NewFileStorage inits append-only file storage
@@ -74,6 +89,9 @@ func (fs *FileStorage) send(m storage.Message) (storage.Message, error) {
 		data []byte
 		err  error
 	)
+	fs.mu.Lock()
+	defer fs.mu.Unlock()
+
 	if err = fs.lockFile.Lock(); err != nil {
 		return m, fmt.Errorf("failed to lock a file:  %w", err)
 	}
@@ -115,12 +133,16 @@ func (fs *FileStorage) GetMessages(offset uint64) ([]storage.Message, error) {
 		row  []byte
 		data storage.Message
 	)
+	fs.mu.Lock()
+	defer fs.mu.Unlock()
+
 	if _, err = fs.dataFile.Seek(0, 0); err != nil {
 		return nil, fmt.Errorf("failed to seek a offset to the start of a data file:  %w", err)
 	}
 	scanner := bufio.NewScanner(fs.dataFile)
 	buf := make([]byte, 0, 64*1024)
 	scanner.Buffer(buf, maxMessageSize)
+	scanner.Split(scanCompleteLines)
 	for scanner.Scan() {
 		if offset > 0 {
 			offset--
@@ -149,6 +171,9 @@ func (fs *FileStorage) Close() error {
 }
 
 func (fs *FileStorage) IgnoreMessages(messages []string, useOffset bool) error {
+	fs.mu.Lock()
+	defer fs.mu.Unlock()
+
 	for _, msg := range messages {
 		if useOffset {
 			offset, err := strconv.ParseUint(msg, 10, 64)
@@ -167,6 +192,9 @@ func (fs *FileStorage) IgnoreMessages(messages []string, useOffset bool) error {
 }
 
 func (fs *FileStorage) UnignoreMessages() {
+	fs.mu.Lock()
+	defer fs.mu.Unlock()
+
 	fs.idIgnoreList = map[string]struct{}{}
 	fs.offsetIgnoreList = map[uint64]struct{}{}
 }
